@@ -224,6 +224,8 @@ RULES = [
 
 from . import shared
 RULES = RULES + shared.bundle('C19', [], ['sesans', 'direct_model'])
+from . import folds as _folds
+RULES = RULES + [_folds.fold_rule('C19')]
 
 
 def run(tier="quick", replay=None):
